@@ -100,7 +100,7 @@ PROPS = {
             "technique": "Lean 4 proof: routing with one row counter per sheet never reuses a (sheet,row) and puts each fraction on its type's sheet; regenerated sheet maps; correspondence of abstract sheets",
             "text": "Theorem each_fraction_one_row_no_overwrite + sheet-map table theorems; tax_report_us/ie files read back and compared row by row with the Lean model; routing oracle.",
             "design_ref": "DESIGN.md §3 C14"},
-    "C15": {"streams": [S("reports", 60, 3000, ["open", "status"]), S("cli", 30, 1200, ["open", "exit", "model"])], "rule": REP_RULE + "; C15: no from-date", "assumptions": ["runs without a from-date (as the property states)", "hypothesis LocalDatesMonotone (finding F6) when a to-date is given"],
+    "C15": {"streams": [S("reports", 60, 3000, ["open", "status"]), S("cli", 30, 1200, ["open", "exit", "model"])], "rule": REP_RULE + "; C15: no from-date", "assumptions": ["runs without a from-date (as the property states)", "hypothesis LocalDatesMonotone (finding F6) when a to-date is given", "hypotheses OutWithFeeConsistent and FeeFiatVisible (finding F12) for the reconciliation clause, as for C07"],
             "technique": "Lean 4 proof (exact arithmetic): realized + unrealized = acquired per lot and in total, weights add to 1, unit cost distributes; correspondence of the open-positions rows",
             "text": "Theorems realized_plus_unrealized_is_acquired, weights_add_to_one, unit_cost_is_cost_over_balance; open_positions.ods compared row by row with the Lean model; conservation oracle on the real output.",
             "design_ref": "DESIGN.md §3 C15"},
